@@ -352,7 +352,7 @@ static void snapshot(CodeHolder& code, Snap& sn) {
 
 // ---------------------------------------------------------------------------------------------------------------
 static StringLogger g_logger;
-alignas(64) static uint8_t g_static_mem[3000];
+alignas(64) static uint8_t g_static_mem[768];   // small on purpose: every program outgrows the static block, also after a reset
 
 struct Cfg {
   bool static_arena, logger, validate; int heap;
